@@ -50,6 +50,12 @@ def spec(tier):
         jobs.append(Job("hooks", "h_iobad", ["--trials=%d" % nb, "--first=%d" % (i * nb)], ncpu=[None, 4, 2, None][i % 4], timeout=T, tag="h_iobad:hooks:%d" % i))
     jobs.append(Job("asan", "h_iobad", ["--trials=%d" % nb, "--first=90000"], timeout=600 if quick else 1800, env={"VF_LSAN": "1"}, tag="h_iobad:asan"))
     jobs.append(Job("hooks", "h_iobad", ["--trials=%d" % nb, "--first=91000", "--sigstorm=2000"], timeout=T, tag="h_iobad:sigstorm"))
+    # one socket used in both directions at once (read and write stream sources share one epoll registration): harness/h_duplex.c
+    nd = 80 if quick else 800
+    for i in range(3 if quick else 12):
+        jobs.append(Job("hooks", "h_duplex", ["--mode=io", "--trials=%d" % nd, "--first=%d" % (i * nd)], ncpu=[None, 4, 2][i % 3], timeout=T, tag="h_duplex:io:hooks:%d" % i))
+    jobs.append(Job("asan", "h_duplex", ["--mode=io", "--trials=%d" % (nd // 2), "--first=50000", "--scale=50"], timeout=600 if quick else 1800, tag="h_duplex:io:asan"))
+    jobs.append(Job("hooks", "h_duplex", ["--mode=io", "--trials=%d" % nd, "--first=60000", "--sigstorm=2000"], timeout=T, tag="h_duplex:io:sigstorm"))
     if not quick:
         add("default", 20, 500, flavor="dbg", extra=BULK, timeout=1800)
         add("default", 10, 300, flavor="asan", ncpu=2, extra=BULK, timeout=1800)
@@ -71,6 +77,9 @@ def spec(tier):
         "ecanceled_ops": 600 * k,
         "ops_after_close": 400 * k,
         "cleanup_handlers": 700 * k,
+        "duplex_io_trials": 300 * (1 if quick else 10),
+        "duplex_trials_outbound_exceeds_socket_buffer": 80 * (1 if quick else 10),
+        "duplex_ops_with_partial_deliveries": 100 * (1 if quick else 10),
         "unusable_descriptor_trials": 150 * (1 if quick else 10),
         "unusable_descriptor_writes": 150 * (1 if quick else 10),
         "bystander_operations_on_healthy_file": 300 * (1 if quick else 10),
@@ -97,7 +106,11 @@ def spec(tier):
             "a file or pipe end opened for the other direction: EBADF at the first read()/write() with more operations queued) next "
             "to a bystander channel on a healthy file of the same device: done exactly once, failed reads deliver nothing, failed "
             "writes hand the whole submitted data back (bytes written + bytes reported unwritten = submitted), cleanup exactly once, "
-            "bystander operations complete in full with the right bytes")
+            "bystander operations complete in full with the right bytes. A third harness (h_duplex --mode=io) keeps reads and writes in "
+            "flight at the same time on one AF_UNIX stream socket (one channel, two channels on the descriptor, create_with_io, or the "
+            "convenience calls) against a peer that dribbles the inbound stream and drains the outbound one in bursts with stalls (the "
+            "send buffer fills), optionally half-closing: inbound bytes delivered to the reads in submission order are what the peer "
+            "sent, the peer received exactly the submitted writes, done once, error 0, cleanup after the handlers, everything completes")
     opts = {
         "assumptions": [
             "ordering of completions is only judged on serial handler queues (on concurrent/global queues the byte ranges alone show that the I/O was performed in submission order)",
